@@ -45,6 +45,11 @@ type planOp struct {
 type planSession struct {
 	A []planOp `json:"a"` // phase A, before the fenced garbage check
 	B []planOp `json:"b"` // phase B, with garbage interleaved
+	// GarbageFirst > 0: the very first datagram every client socket of this session sends (the first one
+	// and each one opened by a rebind) is unparsable / unauthenticated: garbage kind GarbageFirst-1 for
+	// socks5 and none servers, this session's own first ss2022 packet with a flipped bit for ss2022
+	// servers. The valid datagrams that follow from the same address must get a working session.
+	GarbageFirst int `json:"garbageFirst,omitempty"`
 }
 
 type plan struct {
@@ -202,6 +207,9 @@ func drawPlan(rt *rapid.T) *plan {
 			} else {
 				ps.B = append(ps.B, op)
 			}
+		}
+		if p.ServerProto != "direct" && rapid.IntRange(0, 9).Draw(rt, "garbageFirst") < 4 {
+			ps.GarbageFirst = 1 + rapid.IntRange(0, len(garbageKinds(p.ServerProto))-1).Draw(rt, "garbageFirstKind")
 		}
 		p.Sessions = append(p.Sessions, ps)
 	}
